@@ -161,7 +161,15 @@ class Canon:
                 if integer_valued(a):
                     return a
                 return self.atom('floor', a)
-            if (f == 'abs' or f.endswith('::abs')) and len(t[2]) == 1:
+            if f.endswith('::div_euclid') and len(t[2]) == 2:
+                k = _num(t[2][1])
+                if k is not None and k > 0:
+                    a = self.cf(t[2][0])
+                    ca = const_of(a)
+                    if ca is not None:
+                        return {(): float(math.floor(ca / k))} if math.floor(ca / k) else {}
+                    return self.atom('floor', {m: c / k for m, c in a.items()})
+            if (f == 'abs' or f.endswith('::abs') or f.endswith('::unsigned_abs')) and len(t[2]) == 1:
                 a = self.cf(t[2][0])
                 ca = const_of(a)
                 if ca is not None:
